@@ -2,6 +2,9 @@ import BSModel.Model.Copy
 import BSModel.Proofs.Copy
 import BSModel.Proofs.CopyEq
 import BSModel.Proofs.CopyEdit
+import BSModel.Proofs.CopyCanon
+import BSModel.Proofs.CopyHash
+import BSModel.Proofs.CopySettle
 import BSModel.Gen.Copy
 /-! C12 — copies are equal, detached and independent; equality is structural; a copy hashes like its original.
 
@@ -16,7 +19,7 @@ open BS BS.Copy
 private def st0 : Settings := ⟨none, some 900, some 901, some 902, false, some 1, some 0, none, none⟩
 private def dB : TagData := ⟨ofS "b", none, none, [], { st0 with canBeEmpty := some true }, some 7, 0, 0⟩
 private def dP : TagData :=
-  ⟨ofS "p", some (ofS "x"), none, [(ofS "class", .list 2 0 [ofS "a", ofS "b"]), (ofS "id", .str (ofS "i"))], st0, some 7, 0, 5⟩
+  ⟨ofS "p", some (ofS "x"), none, [(ofS "class", none, .list 2 0 [ofS "a", ofS "b"]), (ofS "id", none, .str 0 (ofS "i"))], st0, some 7, 0, 5⟩
 /-- `<x:p class="a b" id="i">t<b/><!--c--></x:p>` with object ids 1..5 (the class list is object 2) -/
 private def exP : Node := .tag 1 dP [.str 3 0 (ofS "t"), .tag 4 dB [], .str 5 5 (ofS "c")]
 
@@ -54,34 +57,164 @@ example : run ⟨0, [⟨0, dB, []⟩]⟩ [.stop] = none := by decide +kernel
     class and text, every setting (`can_be_empty_element`, `cdata_list_attributes`, `preserve_whitespace_tags`,
     `interesting_string_types`, `hidden`, `sourceline`, `sourcepos`, `_namespaces`, `_is_xml`) and the nesting. Hence any
     function of the shape — `decode` under any formatter, `prettify`, `get_text` — gives the same result on both. -/
-theorem copy_same_shape (inh : Option Bool) (next : Nat) (t c : Node) (n' : Nat)
+theorem copy_same_shape (inh : Option Bool) (next : Nat) (t c : Node) (n' : Nat) (hs : SettledN t)
     (h : copyImpl inh next t = some (c, n')) : shape none c = shape inh t ∧ shape inh c = shape inh t := by
   obtain ⟨rfl, rfl⟩ := copyImpl_some h
-  exact ⟨shape_copySpec t inh none next (fun _ => rfl), shape_copySpec t inh inh next (fun h => h)⟩
+  exact ⟨shape_copySpec t inh none next hs (fun _ => rfl), shape_copySpec t inh inh next hs (fun h => h)⟩
+
+/-- **The same without any hypothesis**: for *every* tree, the copy has the shape of the original with each attribute
+    dict re-processed by its own class (`settle`) — which is the original itself whenever its dicts were filled through
+    their own `__setitem__` (`settle_of_settled`), and in general says exactly what the copy of a tampered-with
+    `HTML/XMLAttributeDict` looks like (compared with the real code by the `setitem` stream) -/
+theorem copy_shape_general (inh : Option Bool) (next : Nat) (t c : Node) (n' : Nat)
+    (h : copyImpl inh next t = some (c, n')) : shape none c = shape inh (settle t) ∧ shape inh c = shape inh (settle t) := by
+  obtain ⟨rfl, rfl⟩ := copyImpl_some h
+  exact ⟨shape_copySpec_general t inh none next (fun _ => rfl), shape_copySpec_general t inh inh next (fun h => h)⟩
+
+theorem settle_id (t : Node) (hs : SettledN t) : settle t = t := settle_of_settled t hs
+
+/-- **A copy renders identically** — under `decode` with any formatter, `prettify`, `get_text`, …: every observation that
+    reads the tree through its shape gives the same result on the copy (as a root) and on the original (in its context) -/
+theorem copy_renders_identically {α : Type} (observe : Shape → α) (inh : Option Bool) (next : Nat) (t c : Node) (n' : Nat)
+    (hs : SettledN t) (h : copyImpl inh next t = some (c, n')) : observe (shape none c) = observe (shape inh t) := by
+  rw [(copy_same_shape inh next t c n' hs h).1]
+
+/-- `tag.copy_self()` on its own (the public first step): the clone has no contents and the data `copySelf` gives it; the
+    full copy has the same root data -/
+theorem copy_root_is_copy_self (inh : Option Bool) (next i : Nat) (d : TagData) (ks : List Node) :
+    ∃ ks', (copySpec inh next (.tag i d ks)).1 = .tag next (copySelf next d (isXml inh d)).2.1 ks' ∧ ks'.length = ks.length := by
+  refine ⟨(copySpecL (isXml inh d) (copySelf next d (isXml inh d)).2.2 ks).1, by simp [copySpec, copySelf], ?_⟩
+  generalize (copySelf next d (isXml inh d)).2.2 = n
+  generalize isXml inh d = x
+  induction ks generalizing n with
+  | nil => simp [copySpecL]
+  | cons k r ih => simp [copySpecL, ih]
 
 /-- for a `BeautifulSoup`, provided the object still has the data its builder gives a new one (`fresh`): the root data of
     the copy comes from the builder, not from the original -/
 theorem copy_soup_same_shape (fresh : TagData) (inh : Option Bool) (next i : Nat) (d : TagData) (ks : List Node) (c : Node) (n' : Nat)
     (hpristine : shapeData fresh (isXml inh fresh) = shapeData d (isXml inh d)) (hx : isXml inh fresh = isXml inh d)
-    (h : copySoupImpl fresh inh next (.tag i d ks) = some (c, n')) : shape inh c = shape inh (.tag i d ks) := by
+    (hs : SettledL ks) (h : copySoupImpl fresh inh next (.tag i d ks) = some (c, n')) : shape inh c = shape inh (.tag i d ks) := by
   rw [copy_soup_refines] at h
   have := Option.some.inj h
   have hc : c = .tag next fresh (copySpecL (isXml inh d) (next + 1) ks).1 := (congrArg Prod.fst this).symm
   subst hc
   simp only [shape]
-  rw [hpristine, hx, shapeL_copySpecL]
+  rw [hpristine, hx, shapeL_copySpecL _ _ _ hs]
 
+/-- the hypotheses are satisfiable by a non-trivial tree (attributes of every kind in a plain dict, a list value, a
+    `NamespacedAttribute` key, children) -/
+private def exN : Node :=
+  .tag 1 { dP with attrs := dP.attrs ++ [(ofS "n", none, .int 2), (ofS "t", none, .bool true), (ofS "z", none, .none),
+      (ofS "xlink:href", some ⟨some (ofS "xlink"), some (ofS "href"), none⟩, .str 1 (ofS "u"))] }
+    [.str 9 0 (ofS "t"), .tag 10 dB []]
+example : SettledN exN ∧ DictOK exN ∧ SettledN exP ∧ DictOK exP :=
+  ⟨settledN_of_plain _ (by decide +kernel), dictOK_of_b _ (by decide +kernel),
+   settledN_of_plain _ (by decide +kernel), dictOK_of_b _ (by decide +kernel)⟩
+example : ∃ c n', copyImpl (some false) 20 exN = some (c, n') ∧ shape none c = shape (some false) exN :=
+  ⟨_, _, copy_refines _ _ _, shape_copySpec exN (some false) none 20 (settledN_of_plain _ (by decide +kernel))
+    (fun h => by cases h)⟩
 /-- the statement has content: a tree that differs in one string class has another shape -/
 example : shape none exP ≠ shape none (.tag 1 dP [.str 3 1 (ofS "t"), .tag 4 dB [], .str 5 5 (ofS "c")]) := by
   simp [shape, shapeL, exP]
 
-/-- what is *not* kept (recorded quirk, nothing in `==`/`hash`/`decode` reads it): `parser_class` becomes `None`, the
-    `attrs` dict is an `HTMLAttributeDict` (`XMLAttributeDict` when `_is_xml`), `attribute_value_list_class` is the stock
-    one, and `known_xml` holds the resolved `_is_xml` -/
+/-- what is *not* kept (recorded quirk, nothing in `==`/`hash`/`decode` reads it): `parser_class` becomes `None`,
+    `attribute_value_list_class` is the stock one, and `known_xml` holds the resolved `_is_xml`; the class of the `attrs`
+    dict **is** kept (since the repair of `copy_self`) -/
 example (next : Nat) (d : TagData) (xml : Option Bool) :
     (copySelf next d xml).2.1.parserClass = none ∧ (copySelf next d xml).2.1.avlCls = 0 ∧
-    (copySelf next d xml).2.1.dictCls = (if xml == some true then 2 else 1) ∧
+    (copySelf next d xml).2.1.dictCls = d.dictCls ∧
     (copySelf next d xml).2.1.st.knownXml = xml := by simp [copySelf]
+
+/-! ### attribute values that are not strings: the repaired `copy_self`, and what bs4 4.13.0 did -/
+
+/-- the hypothesis `SettledN` of the theorems above is what the public API guarantees: a plain `AttributeDict` (what
+    html.parser gives every parsed tag) stores anything unchanged … -/
+theorem settled_of_plain_dict (cls : Nat) (l : Attrs) (h1 : cls ≠ 1) (h2 : cls ≠ 2) : Settled cls l :=
+  settled_plain cls l h1 h2
+
+/-- … whatever the class, strings (of any class) and lists are stored unchanged … -/
+theorem settled_of_str_list (cls : Nat) (l : Attrs) (h : ∀ e ∈ l, (∃ c s, e.2.2 = .str c s) ∨ (∃ i c xs, e.2.2 = .list i c xs)) :
+    Settled cls l := by
+  intro e he
+  rcases h e he with ⟨c, s, hv⟩ | ⟨i, c, xs, hv⟩
+  · rw [hv]; exact coerce_str ..
+  · rw [hv]; exact coerce_list ..
+
+/-- a dict of a processing class is settled as well when it was filled through its own `__setitem__`: strings and lists -/
+example : Settled 1 dP.attrs := settled_of_str_list 1 _ (by
+  intro e he
+  simp only [dP, List.mem_cons, List.not_mem_nil, or_false] at he
+  rcases he with rfl | rfl
+  · exact Or.inr ⟨_, _, _, rfl⟩
+  · exact Or.inl ⟨_, _, rfl⟩)
+
+/-- … and what `d[key] = value` stored is stored unchanged when set again (`__setitem__` is idempotent) — except for the
+    one value an `HTMLAttributeDict` produces itself and then refuses: `True` under a `NamespacedAttribute` key whose
+    `name` is `None` becomes `None` -/
+theorem setitem_idempotent (cls : Nat) (k : PStr) (m : KMeta) (v v' : AVal) (h : coerce cls k m v = some v')
+    (hne : ¬ (cls = 1 ∧ v' = .none)) : coerce cls k m v' = some v' := by
+  by_cases hc : cls = 1
+  · subst hc
+    have hne' : v' ≠ .none := fun e => hne ⟨rfl, e⟩
+    have h' : coerceHtml k m v = some v' := by simpa [coerce] using h
+    have goal : coerceHtml k m v' = some v' := by
+      cases v with
+      | bool b =>
+        cases b with
+        | false => simp [coerceHtml] at h'
+        | true =>
+          simp only [coerceHtml, Option.some.injEq] at h'
+          subst h'
+          cases m with
+          | none => rfl
+          | some nk =>
+            obtain ⟨p, nm, ns⟩ := nk
+            cases nm with
+            | none => exact absurd rfl hne'
+            | some x => rfl
+      | none => simp [coerceHtml] at h'
+      | int n => simp only [coerceHtml, Option.some.injEq] at h'; subst h'; rfl
+      | str c s => simp only [coerceHtml, Option.some.injEq] at h'; subst h'; rfl
+      | list i c xs => simp only [coerceHtml, Option.some.injEq] at h'; subst h'; rfl
+    simpa [coerce] using goal
+  · by_cases hc2 : cls = 2
+    · subst hc2
+      have h' : coerceXml v = some v' := by simpa [coerce] using h
+      have goal : coerceXml v' = some v' := by
+        cases v <;> simp only [coerceXml, Option.some.injEq] at h' <;> subst h' <;> rfl
+      simpa [coerce] using goal
+    · simp only [coerce, hc, hc2, ↓reduceIte, Option.some.injEq] at h ⊢
+
+/-- the exception is real -/
+example : coerce 1 (ofS "xml") (some ⟨some (ofS "xml"), none, none⟩) (.bool true) = some .none ∧
+    coerce 1 (ofS "xml") (some ⟨some (ofS "xml"), none, none⟩) .none = none := by decide +kernel
+
+private def dA (cls : Nat) (v : AVal) : TagData :=
+  ⟨ofS "a", none, none, [(ofS "id", none, .str 0 (ofS "1")), (ofS "k", none, v)], st0, some 0, cls, 0⟩
+
+/-- **What bs4 4.13.0 did** (defect `C12-copy-coerces-nonstring-attr`, repaired): `copy_self` kept the
+    `HTMLAttributeDict` made by `Tag.__init__`, so the values of a parsed tag's plain dict were processed on the way:
+    for `soup.a["k"] = 2` the copy holds `"2"` and is **not equal** to its original; for `True` it holds `"k"`; for
+    `None` and `False` the attribute is gone (and `<a k>` renders as `<a>`). -/
+theorem old_copy_self_coerces :
+    dictEq (dA 0 (.int 2)).attrs (copySelfOld 10 (dA 0 (.int 2)) (some false)).2.1.attrs = false ∧
+    (copySelfOld 10 (dA 0 (.int 2)) (some false)).2.1.attrs = (dA 1 (.str 0 (ofS "2"))).attrs ∧
+    (copySelfOld 10 (dA 0 (.bool true)) (some false)).2.1.attrs = (dA 1 (.str 0 (ofS "k"))).attrs ∧
+    (copySelfOld 10 (dA 0 .none) (some false)).2.1.attrs = [(ofS "id", none, .str 0 (ofS "1"))] ∧
+    (copySelfOld 10 (dA 0 (.bool false)) (some false)).2.1.attrs = [(ofS "id", none, .str 0 (ofS "1"))] := by
+  decide +kernel
+
+/-- the repaired `copy_self` keeps every value (and the dict class) of such a tag -/
+theorem new_copy_self_keeps (v : AVal) (hv : v.isList = false) (next : Nat) (xml : Option Bool) :
+    (copySelf next (dA 0 v) xml).2.1.attrs = (dA 0 v).attrs ∧ (copySelf next (dA 0 v) xml).2.1.dictCls = 0 := by
+  cases v <;> simp_all [copySelf, copyAttrs, dA, coerce, pushEntry, AVal.isList]
+
+/-- old and new agree whenever the original's dict already is of the class `Tag.__init__` would choose (every tag made
+    without a builder): the repair changes nothing there -/
+theorem old_new_agree (next : Nat) (d : TagData) (xml : Option Bool)
+    (h : d.dictCls = if xml == some true then 2 else 1) : copySelfOld next d xml = copySelf next d xml := by
+  simp only [copySelfOld, copySelf, h]
 
 /-! ### a copy is made of new objects only -/
 
@@ -153,10 +286,32 @@ theorem copy_independent (inh : Option Bool) (next : Nat) (t c : Node) (n' : Nat
     have := (hf _ hc).1
     omega
 
+/-- … and the same for any **history** of mutations (`.string = …`, `smooth()`, `wrap`, `unwrap`, `insert_before`, `extend`
+    … are sequences of the primitive ones on objects of the edited tree or on new objects): as long as no mutated object
+    belongs to `t`, `t` is unchanged -/
+theorem edits_frame (es : List Edit) (t : Node) (h : ∀ e ∈ es, e.target ∉ ids t) : applyEdits es t = t := by
+  induction es with
+  | nil => rfl
+  | cons e r ih =>
+    simp only [applyEdits]
+    rw [edit_frame e t (h e (List.mem_cons_self ..))]
+    exact ih (fun x hx => h x (List.mem_cons_of_mem _ hx))
+
+/-- independence under whole edit histories of the copy: every mutated object is one of the copy or was created after the
+    copy was made (identity ≥ `next`) — the original does not change -/
+theorem copy_independent_history (inh : Option Bool) (next : Nat) (t c : Node) (n' : Nat)
+    (_h : copyImpl inh next t = some (c, n')) (hw : ∀ x ∈ ids t, x < next) (es : List Edit) (hes : ∀ e ∈ es, next ≤ e.target) :
+    applyEdits es t = t := by
+  apply edits_frame
+  intro e he ht
+  have := hw _ ht
+  have := hes e he
+  omega
+
 /-- the lemma has content: a clone that kept the original's value list (a *shallow* copy of `attrs`) is changed by
     `original["class"].append("z")` … -/
 example : (match applyEdit (.listAppend 2 (ofS "z")) (.tag 10 dP []) with | .tag _ d _ => d.attrs | _ => []) =
-    [(ofS "class", .list 2 0 [ofS "a", ofS "b", ofS "z"]), (ofS "id", .str (ofS "i"))] := by decide +kernel
+    [(ofS "class", none, .list 2 0 [ofS "a", ofS "b", ofS "z"]), (ofS "id", none, .str 0 (ofS "i"))] := by decide +kernel
 /-- … the real copy is not -/
 example : ∀ c n', copyImpl none 10 exP = some (c, n') → applyEdit (.listAppend 2 (ofS "z")) c = c := by
   intro c n' h
@@ -264,7 +419,7 @@ theorem eq_never_confuses_ancestor_and_descendant (a x : Node) (ha : DictOK a) (
 example : Below exP (.tag 4 dB []) := .kid (by simp)
 
 /-- **Attribute order is irrelevant**: permuting the attributes of a tag gives an equal tag -/
-theorem attr_order_irrelevant (i j : Nat) (d : TagData) (attrs' : List (PStr × AVal)) (ks : List Node)
+theorem attr_order_irrelevant (i j : Nat) (d : TagData) (attrs' : Attrs) (ks : List Node)
     (hd : DictOK (.tag i d ks)) (hp : d.attrs.Perm attrs') :
     eqImpl (.tag i d ks) (.tag j { d with attrs := attrs' } ks) = true := by
   have hd' : DictOK (.tag j { d with attrs := attrs' } ks) := by
@@ -275,58 +430,224 @@ theorem attr_order_irrelevant (i j : Nat) (d : TagData) (attrs' : List (PStr × 
   rw [attrMap_perm hp (by simpa [DictOK] using hd.1)]
 
 private def exQ : Node :=
-  .tag 21 { dP with attrs := [(ofS "id", .str (ofS "i")), (ofS "class", .list 22 9 [ofS "a", ofS "b"])], pfx := none }
+  .tag 21 { dP with attrs := [(ofS "id", some ⟨none, some (ofS "id"), none⟩, .str 2 (ofS "i")), (ofS "class", none, .list 22 9 [ofS "a", ofS "b"])], pfx := none }
     [.str 23 5 (ofS "t"), .tag 24 { dB with st := st0 } [], .str 25 0 (ofS "c")]
 
-/-- other order, other list class, other prefix, other string classes, other settings: still `==` -/
+/-- other order, other list class, other key and value classes, other prefix, other string classes, other settings: still `==` -/
 example : eqImpl exP exQ = true ∧ eqImpl exQ exP = true := by decide +kernel
 example : DictOK exP ∧ DictOK exQ := by
   simp only [DictOK, DictOKL, exP, exQ, dP, dB]
   decide +kernel
 /-- one attribute value changed / one child missing / a string against a tag: not `==` -/
-example : eqImpl exP (.tag 1 { dP with attrs := [(ofS "class", .list 2 0 [ofS "a"]), (ofS "id", .str (ofS "i"))] }
+example : eqImpl exP (.tag 1 { dP with attrs := [(ofS "class", none, .list 2 0 [ofS "a"]), (ofS "id", none, .str 0 (ofS "i"))] }
     [.str 3 0 (ofS "t"), .tag 4 dB [], .str 5 5 (ofS "c")]) = false := by decide +kernel
 example : eqImpl exP (.tag 1 dP [.str 3 0 (ofS "t"), .tag 4 dB []]) = false := by decide +kernel
 example : eqImpl (.str 3 0 (ofS "b")) (.tag 4 dB []) = false := by decide +kernel
 /-- a list value never equals the string it renders as -/
-example : valEq (.list 2 0 [ofS "a"]) (.str (ofS "a")) = false := by decide +kernel
+example : valEq (.list 2 0 [ofS "a"]) (.str 0 (ofS "a")) = false := by decide +kernel
+/-- numbers compare as numbers (`True == 1`), never with their text -/
+example : valEq (.bool true) (.int 1) = true ∧ valEq (.int 2) (.str 0 (ofS "2")) = false ∧ valEq .none .none = true := by
+  decide +kernel
 
 /-! ### a copy equals its original and hashes like it -/
 
 /-- **A copy compares equal to its original** (`original == copy` and `copy == original`) -/
-theorem copy_eq (inh : Option Bool) (next : Nat) (t c : Node) (n' : Nat) (hd : DictOK t)
+theorem copy_eq (inh : Option Bool) (next : Nat) (t c : Node) (n' : Nat) (hd : DictOK t) (hs : SettledN t)
     (h : copyImpl inh next t = some (c, n')) : eqImpl t c = true ∧ eqImpl c t = true := by
   obtain ⟨rfl, rfl⟩ := copyImpl_some h
-  have hd' := dictOK_copySpec t inh next hd
-  have hc := canon_copySpec t inh next
+  have hd' := dictOK_copySpec t inh next hs hd
+  have hc := canon_copySpec t inh next hs
   exact ⟨(eq_iff_structural _ _ hd hd').mpr hc.symm, (eq_iff_structural _ _ hd' hd).mpr hc⟩
 
 /-- and to whatever the original compares equal to -/
-theorem copy_eq_class (inh : Option Bool) (next : Nat) (t c u : Node) (n' : Nat) (hd : DictOK t) (hu : DictOK u)
-    (h : copyImpl inh next t = some (c, n')) : eqImpl c u = eqImpl t u := by
+theorem copy_eq_class (inh : Option Bool) (next : Nat) (t c u : Node) (n' : Nat) (hd : DictOK t) (hs : SettledN t)
+    (hu : DictOK u) (h : copyImpl inh next t = some (c, n')) : eqImpl c u = eqImpl t u := by
   obtain ⟨rfl, rfl⟩ := copyImpl_some h
-  exact eq_depends_on_canon_only _ _ _ _ (dictOK_copySpec t inh next hd) hd hu hu (canon_copySpec t inh next) rfl
+  exact eq_depends_on_canon_only _ _ _ _ (dictOK_copySpec t inh next hs hd) hd hu hu (canon_copySpec t inh next hs) rfl
 
 /-- **A copy hashes like its original**: `hash(tag)` is `hash(tag.decode())`; for every renderer that reads the tree
-    through its shape (no object identities; `known_xml` only through `_is_xml`) and every string hash -/
-theorem copy_hash (render : Shape → PStr) (hsh : PStr → Nat) (inh : Option Bool) (next : Nat) (t c : Node) (n' : Nat)
-    (h : copyImpl inh next t = some (c, n')) : hashImpl render hsh none c = hashImpl render hsh inh t := by
-  simp only [hashImpl, (copy_same_shape inh next t c n' h).1]
+    through its shape (no object identities; `known_xml` only through `_is_xml`; attributes as a map) and every string hash -/
+theorem copy_hash (render : RShape → PStr) (hsh : PStr → Nat) (inh : Option Bool) (next : Nat) (t c : Node) (n' : Nat)
+    (hs : SettledN t) (h : copyImpl inh next t = some (c, n')) : hashImpl render hsh none c = hashImpl render hsh inh t := by
+  simp only [hashImpl, (copy_same_shape inh next t c n' hs h).1]
 
-/-- what does **not** hold (and the property does not claim): `==` looks at less than `decode` does, so equal tags may
-    hash differently — here `<a><!--x--></a> == <a>x</a>` (strings compare by text, whatever their class) -/
+/-- `==`, `hash` and the dict invariant are functions of the shape: whatever has the shape of a tree — its copy, a twin
+    parsed from the same markup, the unpickled re-parse — is equal to it and hashes like it -/
+theorem same_shape_eq_and_hash (render : RShape → PStr) (hsh : PStr → Nat) (i j : Option Bool) (a b : Node) (ha : DictOK a)
+    (h : shape i a = shape j b) :
+    eqImpl a b = true ∧ eqImpl b a = true ∧ hashImpl render hsh i a = hashImpl render hsh j b := by
+  have hb := dictOK_of_shape a b i j h ha
+  have hc := canon_of_shape a b i j h
+  exact ⟨(eq_iff_structural a b ha hb).mpr hc, (eq_iff_structural b a hb ha).mpr hc.symm, by simp only [hashImpl, h]⟩
+
+/-- **A copy equals (and hashes like) its original, for every tree**: with the original's dicts re-processed where they
+    were tampered with; `copy_eq`/`copy_hash` below are the case `settle t = t` -/
+theorem copy_eq_general (render : RShape → PStr) (hsh : PStr → Nat) (inh : Option Bool) (next : Nat) (t c : Node) (n' : Nat)
+    (hd : DictOK t) (h : copyImpl inh next t = some (c, n')) :
+    eqImpl (settle t) c = true ∧ eqImpl c (settle t) = true ∧
+      hashImpl render hsh none c = hashImpl render hsh inh (settle t) := by
+  have hsh' := (copy_shape_general inh next t c n' h).1
+  obtain ⟨e1, e2, e3⟩ := same_shape_eq_and_hash render hsh inh none (settle t) c (dictOK_settle t hd) hsh'.symm
+  exact ⟨e1, e2, e3.symm⟩
+
+/-- non-vacuity: a tampered-with `HTMLAttributeDict` (`None` and an `int` put in behind its back) — the copy drops the one
+    and turns the other into its text, exactly as `settle` says -/
+example : (settleAttrs 1 (dA 1 .none).attrs) = [(ofS "id", none, .str 0 (ofS "1"))] ∧
+    settleAttrs 1 (dA 1 (.int 7)).attrs = (dA 1 (.str 0 (ofS "7"))).attrs ∧
+    (copySelf 5 (dA 1 (.int 7)) none).2.1.attrs = (dA 1 (.str 0 (ofS "7"))).attrs := by
+  decide +kernel
+
+/-- **`==` and `hash` agree on attribute order**: permuting the attribute dict changes neither (`==`:
+    `attr_order_irrelevant`) -/
+theorem hash_attr_order_irrelevant (render : RShape → PStr) (hsh : PStr → Nat) (inh : Option Bool) (i j : Nat) (d : TagData)
+    (attrs' : Attrs) (ks : List Node) (hd : (d.attrs.map Prod.fst).Nodup) (hp : d.attrs.Perm attrs') :
+    hashImpl render hsh inh (.tag i d ks) = hashImpl render hsh inh (.tag j { d with attrs := attrs' } ks) := by
+  have hl : ∀ k, (eraseAttrs d.attrs).lookup k = (eraseAttrs attrs').lookup k := by
+    intro k
+    rw [eraseAttrs_lookup, eraseAttrs_lookup, perm_lookup hp hd k]
+  simp only [hashImpl, shape, rshapeOf, shapeData, isXml]
+  have : (fun k => (eraseAttrs d.attrs).lookup k) = fun k => (eraseAttrs attrs').lookup k := funext hl
+  rw [this]
+
+/-- **When `==` implies equal hashes.** Two equal trees hash alike as soon as they also agree in what `==` does not look
+    at (`decor`: string classes, prefixes, namespaces, settings, kinds of keys, kinds and classes of values) — for every
+    renderer and string hash. In particular whenever one is a copy of the other, or they were parsed from the same
+    markup by equally configured builders. -/
+theorem eq_hash_consistent (render : RShape → PStr) (hsh : PStr → Nat) (inh inh' : Option Bool) (a b : Node)
+    (ha : DictOK a) (hb : DictOK b) (he : eqImpl a b = true) (hdec : decor inh a = decor inh' b) :
+    hashImpl render hsh inh a = hashImpl render hsh inh' b := by
+  have hc := (eq_iff_structural a b ha hb).mp he
+  simp only [hashImpl, rshape_of_canon_decor a b inh inh' hc hdec]
+
+/-- what does **not** hold (and the property does not claim): `==` looks at less than `decode` does, so equal tags whose
+    `decor` differs may hash differently — here `<a><!--x--></a> == <a>x</a>` (strings compare by text, whatever their
+    class) -/
 theorem hash_is_not_a_function_of_eq :
-    ∃ (a b : Node) (render : Shape → PStr) (hsh : PStr → Nat),
+    ∃ (a b : Node) (render : RShape → PStr) (hsh : PStr → Nat),
       eqImpl a b = true ∧ hashImpl render hsh none a ≠ hashImpl render hsh none b := by
   refine ⟨.tag 1 dB [.str 2 5 (ofS "x")], .tag 3 dB [.str 4 0 (ofS "x")],
-    (fun s => match s with | .tag _ [.str c _] => [c] | _ => []), (fun s => s.headD 0), by decide +kernel, ?_⟩
-  simp [hashImpl, shape, shapeL]
+    (fun s => match s with | .tag _ _ [.str c _] => [c] | _ => []), (fun s => s.headD 0), by decide +kernel, ?_⟩
+  simp [hashImpl, shape, shapeL, rshapeOf, rshapeOfL]
+
+/-- non-vacuity of `eq_hash_consistent`: two different objects (other identities, other attribute order) that are equal and
+    agree in `decor` -/
+example : ∃ a b : Node, DictOK a ∧ DictOK b ∧ eqImpl a b = true ∧ decor none a = decor none b ∧ ids a ≠ ids b :=
+  ⟨exP, .tag 31 { dP with attrs := dP.attrs.reverse |>.map fun e => match e with
+      | (k, m, .list _ c xs) => (k, m, .list 32 c xs) | e => e } [.str 33 0 (ofS "t"), .tag 34 dB [], .str 35 5 (ofS "c")],
+    dictOK_of_b _ (by decide +kernel),
+    dictOK_of_b _ (by decide +kernel),
+    by decide +kernel,
+    by
+      simp only [decor, decorL, exP, Decor.tag.injEq, List.cons.injEq, and_true, true_and]
+      refine ⟨by decide +kernel, ?_, by decide +kernel⟩
+      funext k
+      simp only [dP, List.reverse_cons, List.reverse_nil, List.nil_append, List.cons_append, List.map_cons, List.map_nil,
+        List.lookup_cons, List.lookup_nil]
+      by_cases h1 : k = ofS "class"
+      · subst h1; decide +kernel
+      · by_cases h2 : k = ofS "id"
+        · subst h2; decide +kernel
+        · have e1 : (k == ofS "class") = false := by simpa using h1
+          have e2 : (k == ofS "id") = false := by simpa using h2
+          simp [e1, e2],
+    by decide +kernel⟩
+
+/-! ### the `BeautifulSoup` object -/
+
+/-- **What a copy of a `BeautifulSoup` object keeps**: the builder (the very same object is reused), `original_encoding`,
+    and `is_xml` (it is the builder's); **what it does not**: `parse_only` and `element_classes` (the copy is not parsed
+    from anything), and — although `original_encoding` is carried over — `declared_html_encoding` and
+    `contains_replacement_characters`, which come from preparing the empty markup. Recorded behaviour of
+    `BeautifulSoup.copy_self`, compared with the real objects on every run. -/
+theorem soup_copy_info (s : SoupInfo) :
+    (soupCopySelf s).builder = s.builder ∧ (soupCopySelf s).builderIsXml = s.builderIsXml ∧
+    (soupCopySelf s).originalEncoding = s.originalEncoding ∧ (s.isXml = s.builderIsXml → (soupCopySelf s).isXml = s.isXml) ∧
+    (soupCopySelf s).parseOnly = none ∧ (soupCopySelf s).elementClasses = none ∧
+    (soupCopySelf s).declaredHtmlEncoding = none ∧ (soupCopySelf s).containsReplacementCharacters = false := by
+  refine ⟨rfl, rfl, rfl, fun h => h.symm, rfl, rfl, rfl, rfl⟩
+
+/-- copying a copy changes nothing more; a document parsed from a `str` without options is copied field by field -/
+theorem soup_copy_idempotent (s : SoupInfo) : soupCopySelf (soupCopySelf s) = soupCopySelf s := rfl
+
+theorem soup_copy_exact (s : SoupInfo) (h1 : s.isXml = s.builderIsXml) (h2 : s.parseOnly = none) (h3 : s.elementClasses = none)
+    (h4 : s.declaredHtmlEncoding = none) (h5 : s.containsReplacementCharacters = false) : soupCopySelf s = s := by
+  cases s
+  simp_all [soupCopySelf]
+
+/-- pickling keeps every document-level field (the whole `__dict__` travels), with new builder / strainer / mapping objects -/
+theorem soup_pickle_info (fresh : Nat) (s : SoupInfo) :
+    (soupPickle fresh s).isXml = s.isXml ∧ (soupPickle fresh s).originalEncoding = s.originalEncoding ∧
+    (soupPickle fresh s).declaredHtmlEncoding = s.declaredHtmlEncoding ∧
+    (soupPickle fresh s).containsReplacementCharacters = s.containsReplacementCharacters ∧
+    ((soupPickle fresh s).parseOnly.isSome = s.parseOnly.isSome) ∧ (soupPickle fresh s).builder = fresh := by
+  refine ⟨rfl, rfl, rfl, rfl, ?_, rfl⟩
+  cases h : s.parseOnly <;> simp [soupPickle, h]
+
+example : soupCopySelf ⟨5, false, false, some 7, some 8, some (ofS "latin-1"), some (ofS "latin-1"), true⟩ =
+    ⟨5, false, false, none, none, some (ofS "latin-1"), none, false⟩ := by decide +kernel
+
+/-! ### further non-vacuity: concrete instances of the hypotheses above -/
+
+/-- `attr_order_irrelevant` / `hash_attr_order_irrelevant`: a real permutation of a two-entry dict -/
+example : dP.attrs.Perm dP.attrs.reverse ∧ (dP.attrs.map Prod.fst).Nodup ∧ dP.attrs ≠ dP.attrs.reverse :=
+  ⟨(List.reverse_perm _).symm, nodup_of_b _ (by decide +kernel), by decide +kernel⟩
+example : eqImpl exP (.tag 77 { dP with attrs := dP.attrs.reverse } [.str 3 0 (ofS "t"), .tag 4 dB [], .str 5 5 (ofS "c")]) = true :=
+  attr_order_irrelevant 1 77 dP _ _ (dictOK_of_b _ (by decide +kernel)) (List.reverse_perm _).symm
+/-- `setitem_idempotent`: `True` under a plain key in an `HTMLAttributeDict` becomes the key, which is stored unchanged -/
+example : coerce 1 (ofS "k") none (.bool true) = some (.str 0 (ofS "k")) ∧ ¬ (1 = 1 ∧ AVal.str 0 (ofS "k") = .none) := by
+  decide +kernel
+/-- `old_new_agree`: a tag made without a builder holds an `HTMLAttributeDict` -/
+example : (dA 1 (.str 0 (ofS "v"))).dictCls = (if (some false : Option Bool) == some true then 2 else 1) := by decide +kernel
+/-- `soup_copy_exact`: a document parsed from a `str` without options -/
+example : soupCopySelf ⟨5, false, false, none, none, none, none, false⟩ = ⟨5, false, false, none, none, none, none, false⟩ :=
+  soup_copy_exact _ rfl rfl rfl rfl rfl
+/-- `copy_soup_same_shape`: a pristine root (`fresh` = its own data) over two children -/
+example : ∃ c n', copySoupImpl dB none 10 (.tag 1 dB [.str 2 0 (ofS "t"), .tag 3 dP []]) = some (c, n') ∧
+    shape none c = shape none (.tag 1 dB [.str 2 0 (ofS "t"), .tag 3 dP []]) :=
+  ⟨_, _, copy_soup_refines dB none 10 1 dB _, copy_soup_same_shape dB none 10 1 dB _ _ _ rfl rfl
+    (settledL_of_plain _ (by decide +kernel)) (copy_soup_refines dB none 10 1 dB _)⟩
+/-- `copy_independent_history`: a history on objects of the copy (ids 10..14) and on a later one (99) -/
+example : applyEdits [.setName 10 (ofS "q"), .listAppend 11 (ofS "z"), .insertKid 10 0 (.str 99 0 (ofS "n")), .clear 13,
+    .setAttr 99 (ofS "k") none (.int 1)] exP = exP :=
+  copy_independent_history none 10 exP _ _ (copy_refines none 10 exP) (by decide +kernel) _ (by decide +kernel)
+/-- `same_shape_eq_and_hash` / `copy_eq_general`: the copy of the tree with all kinds of attribute -/
+example : ∃ c n', copyImpl none 20 exN = some (c, n') ∧ eqImpl exN c = true := by
+  refine ⟨_, _, copy_refines none 20 exN, ?_⟩
+  have hs : SettledN exN := settledN_of_plain _ (by decide +kernel)
+  exact (copy_eq none 20 exN _ _ (dictOK_of_b _ (by decide +kernel)) hs (copy_refines none 20 exN)).1
+
+/-! ### pickling a document -/
+
+/-- **Every generation is the re-parse of the current tree**: whatever happened to a document before — parsed, unpickled
+    (so that it still holds the markup it was rebuilt from), edited, unpickled and edited again … — its pickle round trip
+    is `feed (decode tree)` of the tree *as it is when it is pickled*; the left-over `markup` plays no role. With C05's
+    `feed ∘ decode = normalise` this is "equal to the original up to the re-parse normalisations", for all histories. -/
+theorem pickle_generation {T : Type} (decode : T → PStr) (feed : PStr → T) (d : PDoc T) (h : List (PStep T)) :
+    (pickleRoundTrip decode feed (pRun decode feed d h)).tree = feed (decode (pRun decode feed d h).tree) := rfl
+
+/-- in particular: unpickle, edit, pickle again — the second generation contains the edit -/
+theorem pickle_edit_pickle {T : Type} (decode : T → PStr) (feed : PStr → T) (d : PDoc T) (f : T → T) :
+    (pRun decode feed d [.pickle, .edit f, .pickle]).tree = feed (decode (f (feed (decode d.tree)))) := rfl
+
+/-- what the seeded `__getstate__` (re-using a left-over `markup`) would do instead: the second generation is the first
+    one again, the edit is lost. (Strings as documents, `feed = decode = id`, edit = append a character.) -/
+example : getStateStale (T := PStr) id (⟨ofS "ab", none⟩ : PDoc PStr) = ofS "ab" ∧
+    getStateStale (T := PStr) id { (pickleRoundTrip id id (⟨ofS "ab", none⟩ : PDoc PStr)) with tree := ofS "abc" } = ofS "ab" ∧
+    getState (T := PStr) id { (pickleRoundTrip id id (⟨ofS "ab", none⟩ : PDoc PStr)) with tree := ofS "abc" } = ofS "abc" := by
+  decide +kernel
+
+/-- the model's reading of `__getstate__`/`__setstate__`, from the live source: the only statement of `__getstate__` that
+    touches `markup` is the unconditional `d['markup'] = self.decode()`; `__setstate__` rebuilds with `reset()` + `_feed()` -/
+theorem pickle_source :
+    BS.Gen.Copy.getstateMarkup = [ofS "d['markup'] = self.decode()"] ∧
+    BS.Gen.Copy.setstateCalls = [ofS "self.reset()", ofS "self._feed()"] := by decide +kernel
 
 /-! ### the model's reading of `copy_self`, pinned to the live source -/
 
 /-- `Tag.copy_self` passes, for **every** parameter of `Tag.__init__` other than `parent`/`previous`, either `None`
-    (`parser`, `builder`) or the tag's own value — exactly the arguments `copySelf` models; and re-sets
-    `can_be_empty_element` and `hidden`. Generated from the running source with `inspect`/`ast`. -/
+    (`parser`, `builder`) or the tag's own value — exactly the arguments `copySelf` models; then rebuilds `attrs` in a dict
+    of the original's class (the repair) and re-sets `can_be_empty_element` and `hidden`. Generated from the running source
+    with `inspect`/`ast`; the whole tables are compared. -/
 theorem copy_self_source :
     BS.Gen.Copy.copySelfArgs =
       [(ofS "attrs", ofS "self.attrs"), (ofS "builder", ofS "None"),
@@ -337,7 +658,12 @@ theorem copy_self_source :
        (ofS "parser", ofS "None"), (ofS "prefix", ofS "self.prefix"),
        (ofS "preserve_whitespace_tags", ofS "self.preserve_whitespace_tags"),
        (ofS "sourceline", ofS "self.sourceline"), (ofS "sourcepos", ofS "self.sourcepos")] ∧
-    BS.Gen.Copy.copySelfSetattrs = [ofS "can_be_empty_element", ofS "hidden"] := by decide +kernel
+    BS.Gen.Copy.copySelfSetattrs = [ofS "can_be_empty_element", ofS "hidden"] ∧
+    BS.Gen.Copy.copySelfAfter =
+      [ofS "clone.attrs = self.attrs.__class__()",
+       ofS "for key, value in self.attrs.items():\n    if isinstance(value, list):\n        value = value.__class__(value)\n    clone.attrs[key] = value",
+       ofS "for attr in ('can_be_empty_element', 'hidden'):\n    setattr(clone, attr, getattr(self, attr))"] := by
+  decide +kernel
 
 /-- no parameter of `Tag.__init__` is forgotten by `copy_self` ("Any new arguments here need to be mirrored in
     Tag.copy_self", element.py:1638) -/
